@@ -263,6 +263,18 @@ EthAddr.BROADCAST = EthAddr(b"\xff\xff\xff\xff\xff\xff")
 
 
 
+def _inet_aton (text):
+  """
+  socket.inet_aton() which does not stop at white space
+
+  The C library parses up to the first white space and ignores whatever
+  follows, so "10.1 .2.3" came out as 10.0.0.1.
+  """
+  if len(text.split()) > 1:
+    raise socket.error("illegal IP address string passed to inet_aton")
+  return socket.inet_aton(text)
+
+
 class IPAddr (_AddrBase):
   """
   Represents an IPv4 address.
@@ -284,11 +296,11 @@ class IPAddr (_AddrBase):
     if isinstance(addr, (bytes, bytearray)):
       if len(addr) != 4:
         # dotted quad
-        self._value = struct.unpack('i', socket.inet_aton(addr.decode()))[0]
+        self._value = struct.unpack('i', _inet_aton(addr.decode()))[0]
       else:
         self._value = struct.unpack('i', addr)[0]
     elif isinstance(addr, str):
-      self._value = struct.unpack('i', socket.inet_aton(addr))[0]
+      self._value = struct.unpack('i', _inet_aton(addr))[0]
     elif isinstance(addr, IPAddr):
       self._value = addr._value
     elif isinstance(addr, int):
